@@ -389,4 +389,72 @@ def no_memo(repo: Repo) -> RuleRun:
 
 no_memo.rule_id = "C16.NO-MEMO"
 
-RULES = [knot_dependence, end_pairing, interface, closest_param_search, stale_alias, none_tests, no_memo]
+def bounds_respected(repo: Repo) -> RuleRun:
+    """The closest parameter is searched within the curve's OWN parameter range: every implementation of get_closest_param
+    (the base method and each override) reads self.bounds - itself, through super() or through what it calls. An override
+    that clips or searches with constants is right only for curves with the default range."""
+    r = RuleRun(PROP, "C16.BOUNDS-RESPECTED", floor=2, what="every get_closest_param implementation depends on self.bounds")
+    base = repo.cls("construct.curves.curve.CurveBase")
+    for cls in [base, *sorted(repo.subclasses(base), key=lambda c: c.qualname)]:
+        m_ = cls.methods.get("get_closest_param")
+        if m_ is None:
+            continue
+        seen_bounds = False
+        funcs = set(repo.reachable([m_])) | {m_}
+        # super().get_closest_param(...) delegates to the next implementation in the MRO
+        for n in ast.walk(m_.node):
+            if isinstance(n, ast.Call) and isinstance(n.func, ast.Attribute) and n.func.attr == "get_closest_param" and isinstance(n.func.value, ast.Call) and attr_chain(n.func.value.func) == "super":
+                for b in repo.mro(cls)[1:]:
+                    if "get_closest_param" in b.methods:
+                        funcs |= set(repo.reachable([b.methods["get_closest_param"]])) | {b.methods["get_closest_param"]}
+                        break
+        for f_ in funcs:
+            if f_.cls is not None and f_.name in ("__init__",):
+                continue
+            for n in ast.walk(f_.node):
+                if isinstance(n, ast.Attribute) and n.attr == "bounds" and isinstance(n.ctx, ast.Load):
+                    seen_bounds = True
+        r.check(
+            seen_bounds,
+            m_,
+            "the search depends on self.bounds",
+            f"{m_.qualname} never reads self.bounds (neither itself nor through super() or the methods it calls): the returned parameter cannot follow a custom parameter range - for a curve "
+            "extended beyond its defining points the closest parameter is clipped to the default range",
+            m_.node,
+            key="bounds",
+        )
+    return r
+
+
+bounds_respected.rule_id = "C16.BOUNDS-RESPECTED"
+
+def range_start(repo: Repo) -> RuleRun:
+    """A curve's parameter range starts at self.bounds[0]. A method of the curve hierarchy that works with the curve's own range
+    (it reads self.bounds) but starts a sub-range at the literal 0 - get_length(0, p), linspace(0, self.bounds[1], n) - is right
+    only for curves whose range starts at 0."""
+    r = RuleRun(PROP, "C16.RANGE-START", floor=3, what="methods that use self.bounds never start a parameter range at the literal 0")
+    base = repo.cls("construct.curves.curve.CurveBase")
+    range_calls = ("get_length", "discretize", "linspace", "arange", "get_point")
+    for cls in [base, *sorted(repo.subclasses(base), key=lambda c: c.qualname)]:
+        for m_ in sorted(cls.methods.values(), key=lambda f: f.name):
+            if not any(isinstance(n, ast.Attribute) and n.attr == "bounds" for n in ast.walk(m_.node)):
+                continue
+            bad = []
+            for n in ast.walk(m_.node):
+                if isinstance(n, ast.Call) and (attr_chain(n.func) or "").split(".")[-1] in range_calls and n.args and isinstance(n.args[0], ast.Constant) and n.args[0].value == 0 and not isinstance(n.args[0].value, bool) and len(n.args) >= 2:
+                    bad.append(n)
+            r.check(
+                not bad,
+                m_,
+                "parameter ranges start at self.bounds[0]",
+                f"{m_.qualname} works with self.bounds but starts a parameter range at the literal 0 ('{ast.unparse(bad[0])[:60] if bad else ''}'): for a curve whose range starts elsewhere "
+                "(bounds=(-1, 2), an arc from 2*pi to 6*pi) the range is wrong or outside the curve",
+                bad[0] if bad else m_.node,
+                key="range-start",
+            )
+    return r
+
+
+range_start.rule_id = "C16.RANGE-START"
+
+RULES = [knot_dependence, end_pairing, interface, closest_param_search, stale_alias, none_tests, no_memo, bounds_respected, range_start]
